@@ -42,7 +42,8 @@ CLAIMS = {
   "technique": "layout interpretation of typed HIR (symbolic byte productions of all box builders) compared with specification transcriptions",
   "text": "Derives, from the type-checked source, the byte layout of every box/record emitted in every configuration (if/match kept as alternatives, loops as repetitions) and compares it field by field with transcriptions of ISO/IEC 14496-12/-14/-15 and the AV1/VP9/Opus bindings: "
           "size, version/flags, reserved bits, constants, field positions, source of each value field, counted tables, length-prefixed parameter sets, descriptor lengths, track IDs vs next_track_ID. Symbolic, hence for all dimensions/rates/parameter sets. "
-          "Found 9 genuine layout defects on the pinned tree: 2 repaired, 7 recorded (pinned by the golden fixture or not small). Also: hvcC profile byte identity, AAC samplingFrequencyIndex table, av1C flag bits (shared with C07.R7/R8).",
+          "Found 9 genuine layout defects on the pinned tree: 2 repaired, 7 recorded (pinned by the golden fixture or not small). Also: hvcC profile byte identity, AAC samplingFrequencyIndex table, av1C flag bits (shared with C07.R7/R8)."
+          " Also: esds descriptor structure (ES > DecoderConfig > DecoderSpecificInfo, SLConfig), hdlr name NUL-terminated, ftyp brands, avcC profile bytes = SPS bytes 1..3, dOps version/channel count/mapping table.",
   "note": "Trusted: my transcription of the specifications (lib/mx/spec.py) and the interpreter. Value-level packing (language code, profile bytes) is not decided."},
  "C01": {
   "technique": "layout interpretation of typed HIR: symbolic file productions of both finalize functions (offset lists, schedule permutation, tables, moov) + MIR monotone-field analysis",
@@ -74,13 +75,15 @@ CLAIMS = {
   "technique": "guard extraction (dominating switch edges + operand-role slices) on MIR; total-match error map via HIR interpretation; typestate dominance",
   "text": "For every builder / write / finish entry point and the inner writers: each documented precondition has an error exit of the documented variant whose nearest dominating guard is the documented predicate on the documented operands (relation canonicalised incl. strictness, invariant under a<=b <-> !(a>b)); no undocumented rejection exists; "
           "success exits lie on the not-finished edge; the internal->public error conversion equals the documented table; sibling video entry points maintain each other's monotonicity state (defect found and repaired); ADTS/Opus validators are guarded on the frame bytes / codec arm."
-          " R7: encode_video's own keyframe decision is tabulated over all 256 NAL header bytes (1- and 2-NAL frames) by finite-domain interpretation of the dumped MIR and must equal the codec module's public classifier (H.264, H.265).",
+          " R7: encode_video's own keyframe decision is tabulated over all 256 NAL header bytes (1- and 2-NAL frames) by finite-domain interpretation of the dumped MIR and must equal the codec module's public classifier (H.264, H.265)."
+          " R8: ADTS acceptance table (every header field over all its values, every short length) by finite-domain interpretation. R9: the VP9 keyframe classifier and configuration extractor accept the same frame-header and marker bytes.",
   "note": "Table transcribed from docs/contract.md and the property statement (lib/mx/rules/c04.py TABLE). NaN/sub-tick behaviour of f64 comparisons is value-level and not decided. Consuming finish() is a type-level fact (thorough-tier witness)."},
  "C07": {
   "technique": "layout interpretation (stsd selection, records) + HIR evaluation of writer/builder functions + MIR guard extraction for parameter-set slots",
   "text": "Sample-entry type is selected by the config variant, the variant is built from the configured codec by the matching extractor, fall-backs and the fragmented selection chain are checked per codec; every parameter-set slot receives the iterated NAL unit itself, only while empty and only for the spec's NAL type constant (7/8, 32/33/34); "
           "audio entry fields and the AudioSpecificConfig/dOps derive from the one audio configuration; av1C/vpcC field bytes are values of the parsed configuration. Two genuine defects recorded (zero-frame non-H.264 fall-back to avc1; constant fragmented av1C fields). R7-R9: hvcC profile/tier/level bytes are the identity function of the SPS bytes they summarise (all 256 values of the extracted builder+accessor expression); AAC samplingFrequencyIndex match table == ISO/IEC 14496-3 table 1.18; av1C flag bits per configuration field; the AV1 sequence-header parser's read program (transcribed from typed HIR) reads the same bit widths in the same order and yields the same configuration values as a transcription of AV1 spec 5.5.1-5.5.5 on every enumerated syntax path (about 2700 paths)."
-          " R10: offset-passing header parsers (VP9) read consecutive fields - every read starts at the offset returned by the read before it on every path (provenance abstract interpretation).",
+          " R10: offset-passing header parsers (VP9) read consecutive fields - every read starts at the offset returned by the read before it on every path (provenance abstract interpretation)."
+          " R11: VP9 byte-packed fields occupy disjoint non-empty bit ranges. R12: AV1 bit reader primitives and uvlc tabulated against f(n)/uvlc(). R13: parameter-set slots by NAL header byte (256 values, first wins). R7/R8 also cover the init segment's hvcC/av1C.",
   "note": "Not decided: bit-level correctness of the AV1 sequence-header and VP9 header parsers (value-level). Shares the record-layout instances with C19."},
  "C09": {
   "technique": "layout interpretation: enumeration of the audio trak production for a track-start offset mechanism",
@@ -113,16 +116,19 @@ CLAIMS = {
  "C14": {
   "technique": "layout interpretation of the converters + exhaustive evaluation of the *extracted* ADTS bit-field formulas + MIR guard extraction",
   "text": "Both Annex-B converters have exactly the production rep(iter(data)){skip empty | be32(len(nal)) ++ nal} ++ whole-input fall-back, are identical to each other, and the iterator yields sub-slices of its input; the ADTS validator returns frame[h..L] where the extracted expressions for h and L are decided equal to the spec formulas over all values of the bytes they read, under the guards h <= L <= len(frame). R4: the start-code scanner steps by 1 from `from`, reports (i,3)/(i,4) only under the exact byte patterns, and returns None only when i + 3 > len is entailed (or the input trivially has no room)."
-          " R2 also: unit boundaries of the NAL iterator (scan from cursor; unit start = hit position + length; end scan from exactly the unit start; cursor := unit end). R5: what the writers queue is exactly the converter's / ADTS validator's output.",
+          " R2 also: unit boundaries of the NAL iterator (scan from cursor; unit start = hit position + length; end scan from exactly the unit start; cursor := unit end). R5: what the writers queue is exactly the converter's / ADTS validator's output."
+          " R6: ADTS header fields are read at the bit positions of ISO/IEC 13818-7. R4 also: a start-code form is taken whenever it fits.",
   "note": "Not decided: that the start-code scanner finds exactly the spec's 3/4-byte start codes in every byte string (a for-all over strings with overlapping patterns; value-level)."},
  "C18": {
   "technique": "layout interpretation: user-data production vs iTunes metadata layout; non-interference of the metadata parameter over the whole moov production",
-  "text": "udta is emitted iff the item list is non-empty and has the layout udta>meta(0)>hdlr(mdir)+ilst>items with data(type 1, locale 0) followed by the title's bytes verbatim; the `metadata` parameter occurs nowhere in the moov production except under udta and in the mdhd language field; both mdhd language fields derive from metadata.language with the `und` default. R4: the (year, month, day) expressions extracted from the creation-date conversion equal the proleptic Gregorian calendar on every day of 400-year eras (exhaustive evaluation of the extracted expressions; year affine in the era). R5: single-attribute metadata setters update in place; only with_metadata(Metadata) replaces.",
+  "text": "udta is emitted iff the item list is non-empty and has the layout udta>meta(0)>hdlr(mdir)+ilst>items with data(type 1, locale 0) followed by the title's bytes verbatim; the `metadata` parameter occurs nowhere in the moov production except under udta and in the mdhd language field; both mdhd language fields derive from metadata.language with the `und` default. R4: the (year, month, day) expressions extracted from the creation-date conversion equal the proleptic Gregorian calendar on every day of 400-year eras (exhaustive evaluation of the extracted expressions; year affine in the era). R5: single-attribute metadata setters update in place; only with_metadata(Metadata) replaces."
+          " R6: both language encoders evaluated on all 26^3 codes against the ISO formula. R4 also: day count = secs/86400 and the hour/minute/second expressions evaluated for all 86400 seconds of a day.",
   "note": "Not decided: the calendar conversion and the 5-bit language packing as arithmetic functions; termination for huge creation times is C12."},
  "C20": {
   "technique": "MIR rules on the bin crate: single-consumer flow of the output File, argument slices, dominance by the Ok edge of finish, store inventory of the verdict flag, loop-variant guard extraction",
   "text": "The File created for the output path is consumed only by MuxerBuilder::new and nothing else in the mux command writes files; every builder/muxer argument is sourced from the matching CLI option (documented default codecs), one frame at t=0 with key=true; both completion messages are dominated by the Ok edge of finish() and all library Results are propagated, main returns the Result; "
           "the validate verdict is initialised true, only stored false, and stored false on every error branch, the hex validator rejects under {empty, odd, non-hex}; the info box walk advances by a size guarded non-zero and is bounded by the buffer length. main hands every parsed option to the command parameter of the same name; no builder call replaces a configuration field wholesale after another call configured it; on the mux path no Result is discarded through .ok()/unwrap_or*/err()."
-          " R5: the non-zero guard tests the very value added to the cursor. R7: reported frame counts are incremented unconditionally, exactly once after each successful library frame write.",
+          " R5: the non-zero guard tests the very value added to the cursor. R7: reported frame counts are incremented unconditionally, exactly once after each successful library frame write."
+          " R4 also: the verdict is cleared only under the documented condition chains; odd-length guard decided structurally.",
   "note": "Not decided: byte equality of the CLI output with an in-process library run; clap's own parsing."},
 }
